@@ -126,12 +126,7 @@ def run(R):
     for (t, chain, got, before, after, rp), o in zip(meta, outs):
         case = {'tree': rp, 'callbacks': chain, 'input': before[:400]}
         R.count('transform', (before, str(chain)), nontrivial='(o ' in before)
-        uses_existing = any(isinstance(c, list) and c[0] == 'child' for c in chain)
-        if got != o and before != after and uses_existing:
-            # a callback answered with a node of the INPUT that has no metadata: transform wrote metadata into that
-            # (possibly shared) input node; the model is functional and has no aliasing.  Counted, not compared.
-            pass
-        elif got != o:
+        if got != o:
             R.disagree('transform', case, got[:500], o[:500])
         else:
             R.traces += 1
@@ -142,11 +137,10 @@ def run(R):
             nlog = len(got[got.rindex(' (') + 2:-2].split()) if not got.endswith('())') else 0
             if nlog != nobj:
                 R.counterexample('transform', 'callback-count', case, f'{nobj} applications (one per object occurrence)', f'{nlog}: {got[:300]}')
-        uses_existing = any(isinstance(c, list) and c[0] == 'child' for c in chain)
-        if before != after and not uses_existing:
+        # SPEC: the input tree is never modified - also when a callback answers with an object of the input (its child)
+        # that has no metadata: the metadata of the replaced node goes on a copy (C16_input_objects_untouched)
+        if before != after:
             R.counterexample('transform', 'input-modified', case, before[:500], after[:500])
-        if before != after and uses_existing:
-            R.extra['input_touched_by_callback_returning_input_node'] = R.extra.get('input_touched_by_callback_returning_input_node', 0) + 1
         if chain == ['id'] and '(exc' not in got:
             # identity callback: result equals the input (same shape, classes, metadata)
             import re
@@ -179,8 +173,8 @@ def run(R):
 
         def walk2(a, b, path):
             if trees.is_obj(b):
-                if id(b) not in returned:
-                    bad.append((path, 'object of the result is not the one the callback returned' + (' (it is the input node)' if id(b) in ids else '')))
+                if id(b) in ids:
+                    bad.append((path, 'object of the result is the input node, not what the callback returned'))
                 elif trees.is_obj(a) and b._metadata.position_info != a._metadata.position_info:
                     bad.append((path, f'metadata {b._metadata.position_info} instead of {a._metadata.position_info}'))
                 if trees.is_obj(a) and type(a) is type(b):
